@@ -40,7 +40,20 @@ class Recorder:
     (value -> bytes conversions), stage:mkdir, zip:open zip:write zip:close, install:remove
     install:replace"""
 
-    def __init__(self, target, fault=None, exc_cls=None):
+    def __init__(self, target, fault=None, exc_cls=None, chunk_level=False):
+        # chunk_level: ALSO count (kind "w:chunk") every store-level write (zarr LocalStore.set) made below an
+        # array-data write — the chunk files of a large array are then fault positions of their own.  A store
+        # write that failed keeps failing for the rest of that save (a full disk stays full): zarr issues the
+        # chunk writes of one assignment as concurrent tasks and does not cancel the others when one raises
+        # (with chunk_level the array-data writes are counted on ANY thread: a library or the serializer may hand
+        # the slabs of a large array to worker threads — an error raised there is an error of the save)
+        self.chunk_level = chunk_level
+        self.data_any_thread = chunk_level
+        self._tl = threading.local()
+        self._lock = threading.Lock()
+        self.in_data = 0
+        self.struck = False
+        self.persistent = True
         self.target = os.path.abspath(target)
         self.base = os.path.dirname(self.target)
         self.fault = fault
@@ -48,7 +61,6 @@ class Recorder:
         self.trace = []
         self.active = False
         self.thread = None
-        self.depth = 0
         self.labels = []
         self.notes = set()
 
@@ -59,18 +71,36 @@ class Recorder:
     def stop(self):
         self.active = False
 
+    @property
+    def depth(self):
+        return getattr(self._tl, "depth", 0)
+
+    @depth.setter
+    def depth(self, v):
+        self._tl.depth = v
+
     def mine(self):
         return self.active and self.depth == 0 and threading.get_ident() == self.thread
 
-    def hit(self, kind):
+    def mine_data(self):
+        """an array-data write: the calling thread, or (chunk_level) any thread"""
+        return self.active and self.depth == 0 and (self.data_any_thread or threading.get_ident() == self.thread)
+
+    def hit(self, kind, in_event_loop=False):
+        """in_event_loop: the caller runs inside a library's asyncio loop — asyncio re-raises KeyboardInterrupt /
+        SystemExit in the loop thread itself (the loop dies, every later call hangs), so only `Exception`s are raised there"""
         if not self.active:
             return
-        idx = len(self.trace)
-        self.trace.append(kind)
+        with self._lock:
+            idx = len(self.trace)
+            self.trace.append(kind)
         if self.fault is not None and idx == self.fault:
-            if issubclass(self.exc_cls, OSError):
-                raise self.exc_cls(28, f"injected at #{idx} ({kind}): No space left on device")
-            raise self.exc_cls(f"injected at #{idx} ({kind})")
+            cls = self.exc_cls
+            if in_event_loop and not issubclass(cls, Exception):
+                cls = InjectedOSError
+            if issubclass(cls, OSError):
+                raise cls(28, f"injected at #{idx} ({kind}): No space left on device")
+            raise cls(f"injected at #{idx} ({kind})")
 
     @contextlib.contextmanager
     def inside(self):
@@ -115,11 +145,13 @@ def instrumented(rec):
         replaced[id(orig)] = wrapper
 
     # ---------------------------------------------------------------- counted primitives
-    def counted(kind_of):
+    def counted(kind_of, mine=None):
         """wrap f: when called by save() (outermost, calling thread) record kind_of(args) first"""
+        mine = mine or rec.mine
+
         def make(orig):
             def w(*a, **k):
-                if not rec.mine():
+                if not mine():
                     return orig(*a, **k)
                 kind = kind_of(*a, **k)
                 if kind is not None:
@@ -150,9 +182,57 @@ def instrumented(rec):
     for nm in ("update_attributes",):
         patch(G, nm, counted(const("w:attr")))
         patch(AR, nm, counted(const("w:attr")))
+    def counted_data(orig):
+        inner = counted(const("w:data"), rec.mine_data)(orig)
+
+        def w(*a, **k):
+            with rec._lock:
+                rec.in_data += 1
+            try:
+                return inner(*a, **k)
+            finally:
+                with rec._lock:
+                    rec.in_data -= 1
+        w.__name__ = getattr(orig, "__name__", "wrapped")
+        return w
+
     for nm in ("__setitem__", "set_basic_selection", "set_orthogonal_selection", "set_mask_selection",
                "set_coordinate_selection", "set_block_selection", "append", "resize"):
-        patch(AR, nm, counted(const("w:data")))
+        patch(AR, nm, counted_data)
+
+    # store-level writes below an array-data write (only when the recorder asks for them)
+    if rec.chunk_level:
+        try:
+            from zarr.storage import LocalStore as _LS
+        except Exception:  # noqa
+            _LS = None
+            rec.notes.add("chunk_level_hook_missing:zarr.storage.LocalStore")
+
+        def chunk_make(orig):
+            async def w(self, *a, **k):
+                key = a[0] if a else k.get("key")
+                if rec.struck and rec.persistent and isinstance(key, str) and key.startswith(rec.struck):
+                    # (also after the assignment has raised: its other chunk tasks are still running; only the
+                    # chunk files of the SAME array keep failing — later metadata writes are not touched)
+                    raise InjectedOSError(28, "injected: No space left on device (still)")
+                if rec.active and rec.in_data > 0:
+                    try:
+                        rec.hit("w:chunk", in_event_loop=True)
+                    except BaseException:
+                        if isinstance(key, str) and "/c/" in key:
+                            rec.struck = key[: key.find("/c/") + 3]        # "<array>/c/": the chunk files of this array
+                        elif isinstance(key, str) and "/" in key:
+                            rec.struck = key.rsplit("/", 1)[0] + "/"
+                        else:
+                            rec.struck = str(key) or "?"
+                        raise
+                return await orig(self, *a, **k)
+            return w
+        if _LS is not None:
+            for nm in ("set", "set_if_not_exists"):
+                if nm in _LS.__dict__:
+                    patches.append((_LS, nm, _LS.__dict__[nm]))
+                    setattr(_LS, nm, chunk_make(_LS.__dict__[nm]))
 
     # value -> bytes conversions (an exception from a callee, part-way through the object graph)
     patch(dill, "dumps", counted(const("ser:dill")))
